@@ -40,10 +40,33 @@ const (
 	DateOnly    = rt.DateOnly
 	TimeOnly    = rt.TimeOnly
 
-	January  = rt.January
-	February = rt.February
-	December = rt.December
-	Sunday   = rt.Sunday
+	January   = rt.January
+	February  = rt.February
+	March     = rt.March
+	April     = rt.April
+	May       = rt.May
+	June      = rt.June
+	July      = rt.July
+	August    = rt.August
+	September = rt.September
+	October   = rt.October
+	November  = rt.November
+	December  = rt.December
+	Sunday    = rt.Sunday
+	Monday    = rt.Monday
+	Tuesday   = rt.Tuesday
+	Wednesday = rt.Wednesday
+	Thursday  = rt.Thursday
+	Friday    = rt.Friday
+	Saturday  = rt.Saturday
+
+	RFC850     = rt.RFC850
+	RFC822Z    = rt.RFC822Z
+	RFC1123Z   = rt.RFC1123Z
+	RubyDate   = rt.RubyDate
+	StampMilli = rt.StampMilli
+	StampMicro = rt.StampMicro
+	StampNano  = rt.StampNano
 )
 
 var (
@@ -69,4 +92,11 @@ func FixedZone(name string, off int) *Location    { return rt.FixedZone(name, of
 func LoadLocation(name string) (*Location, error) { return rt.LoadLocation(name) }
 func Date(year int, month Month, day, hour, min, sec, nsec int, loc *Location) Time {
 	return rt.Date(year, month, day, hour, min, sec, nsec, loc)
+}
+
+func ParseInLocation(layout, value string, loc *Location) (Time, error) {
+	return rt.ParseInLocation(layout, value, loc)
+}
+func LoadLocationFromTZData(name string, data []byte) (*Location, error) {
+	return rt.LoadLocationFromTZData(name, data)
 }
